@@ -252,6 +252,19 @@ func RunC10(env *sim.Env) {
 				}
 			}
 		}
+		// amplification: a residue that only grows (a counter, a depth, a list) shows after the same failure
+		// happened many times on the same pooled Runtime - repeat one fault point, then run every follow-up
+		if len(fps) > 0 && t.Choose(2) == 1 {
+			f := fps[t.Choose(len(fps))]
+			reps := t.Range(20, 90)
+			for i := 0; i < reps; i++ {
+				exec(Call{Tmpl: m, Data: d, FaultProbe: f.probe, FaultProbe2: f.probe2, FaultWrite: f.write, FaultKind: f.kind, NilVars: nilVars})
+			}
+			env.Stat("probe:same_failure_repeated_20_to_90_times", 1)
+			for _, follow := range targets {
+				exec(Call{Tmpl: follow, Data: d, NilVars: nilVars})
+			}
+		}
 	}
 
 	for _, p := range sim.SortedKeys(tmpls) {
